@@ -112,6 +112,7 @@ var Methods = []Method{
 	{Name: "/bound2", Cmd: "BOUND", Path: "key", AliasOf: "/bound"},
 	{Name: "/bind2", Cmd: "BIND", Path: "key", AliasOf: "/bind"},
 	{Name: "/unbind2", Cmd: "UNBIND", Path: "key", AliasOf: "/unbind"},
+	{Name: "/noaff"}, // listed in a method entry that has no affinity section: a plain method
 }
 
 // Msg is the request/response message shape used by the pool histories.
@@ -161,6 +162,7 @@ func (c Config) JSON() string {
 			}
 			ms = append(ms, fmt.Sprintf(`{"name":[%s],"affinity":{"command":%q,"affinityKey":%q}}`, names, m.Cmd, m.Path))
 		}
+		ms = append(ms, `{"name":["/noaff"]}`)
 		parts = append(parts, `"method":[`+strings.Join(ms, ",")+`]`)
 	}
 	return "{" + strings.Join(parts, ",") + "}"
